@@ -104,7 +104,7 @@ static void do_trigger(unsigned j)
         unsigned ci = 1 + (S.ecmd[j] & 1);
         cat_cmd_type kind = (S.ekind[j] & 1) ? CAT_CMD_TYPE_TEST : CAT_CMD_TYPE_READ;
         cat_status full = cat_is_unsolicited_buffer_full(&W.at);
-        cat_status r = (kind == CAT_CMD_TYPE_READ) ? cat_trigger_unsolicited_read(&W.at, &W.cmd[ci]) : cat_trigger_unsolicited_test(&W.at, &W.cmd[ci]);
+        cat_status r = (kind == CAT_CMD_TYPE_READ) ? cat_trigger_unsolicited_read(&W.at, &G_cmd[ci]) : cat_trigger_unsolicited_test(&W.at, &G_cmd[ci]);
         if (!(full == CAT_STATUS_OK || full == CAT_STATUS_ERROR_BUFFER_FULL)) X.bad_full_prediction = 1;
         if ((r == CAT_STATUS_OK) != (full == CAT_STATUS_OK)) X.bad_full_prediction = 1;
         if (!(r == CAT_STATUS_OK || r == CAT_STATUS_ERROR_BUFFER_FULL)) X.bad_trigger_result = 1;
@@ -203,8 +203,8 @@ static void scen_run(void)
         CHK(C13, hseen == exp_h, "an accepted event's handler did not run exactly once");
         if (S.ntrig >= 1) CHK(C13, X.acc_n >= 1, "a trigger on an empty queue was refused");
         CHK(C15, r == CAT_STATUS_OK && cat_is_unsolicited_buffer_full(&W.at) == CAT_STATUS_OK && W.in_pos == S.in_len, "not quiescent within the step bound / an event left behind");
-        CHK(C15, cat_is_unsolicited_event_buffered(&W.at, &W.cmd[1], CAT_CMD_TYPE_NONE) == CAT_STATUS_OK &&
-                 cat_is_unsolicited_event_buffered(&W.at, &W.cmd[2], CAT_CMD_TYPE_NONE) == CAT_STATUS_OK, "an event is still pending after quiescence");
+        CHK(C15, cat_is_unsolicited_event_buffered(&W.at, &G_cmd[1], CAT_CMD_TYPE_NONE) == CAT_STATUS_OK &&
+                 cat_is_unsolicited_event_buffered(&W.at, &G_cmd[2], CAT_CMD_TYPE_NONE) == CAT_STATUS_OK, "an event is still pending after quiescence");
         CHK(C18, !X.bad_busy, "cat_is_busy reported idle in the middle of an output unit");
         CHK(C18, cat_is_busy(&W.at) == CAT_STATUS_OK, "cat_is_busy still busy after quiescence");
 
